@@ -184,15 +184,56 @@ theorem regimeFrom_spec (B : BNet) (bm : Beams) (n : Nat) (em : Nat → Nat → 
       have : (k == 0) = (t' + 1 == T) := by
         by_cases hk0 : k = 0
         · have h3 : t' + 1 = T := by omega
-          simp [hk0, h3]
+          rw [hk0, h3]; simp
         · have h3 : ¬ t' + 1 = T := by omega
-          simp [hk0, h3]
+          rw [beq_eq_false_iff_ne.mpr hk0, beq_eq_false_iff_ne.mpr h3]
       rw [← this]; exact hr1
     · have hv' : vget (stepArr B.toNet.edges n (em t) v) = vAt B.toNet em (t+1) := by
         funext j
         rw [stepArr_get B.toNet n (em t) v (fun e h => ((Net.wf_spec hwf).1 e h).2) j, hv]
         rfl
       exact ih (t+1) _ (by omega) hv' hr2 t' (by omega) h2
+
+theorem init_eq (B : BNet) (bm : Beams) (hinit : ∀ i ∈ B.init, keepInit bm i = true) (j : Nat) :
+    best (B.init.map fun i => if keepInit bm i ∧ i.state = j then some (i.hop + i.entry) else none) = v0 B.toNet j := by
+  unfold v0
+  simp only [BNet.toNet, List.map_map]
+  congr 1
+  apply List.map_congr_left
+  intro i hi
+  have := hinit i hi
+  by_cases hj : i.state = j <;> simp [Function.comp, BInit.pair, this, hj]
+
+theorem step_eq (B : BNet) (bm : Beams) (w : Nat → Option Int) (e : Nat → Int)
+    (hk : ∀ b ∈ B.edges, ∀ x, w b.src = some x → keepEdge B bm w e b = true) (j : Nat) :
+    best (B.edges.map fun b => if keepEdge B bm w e b ∧ b.dst = j then cand w e b.src b.cost else none) =
+      stepV B.toNet e w j := by
+  unfold stepV
+  simp only [BNet.toNet, List.map_map]
+  congr 1
+  apply List.map_congr_left
+  intro b hb
+  simp only [Function.comp, BEdge.triple]
+  cases hs : w b.src with
+  | none => by_cases hj : b.dst = j <;> simp [cand, hs, hj]
+  | some x =>
+    have := hk b hb x hs
+    by_cases hj : b.dst = j <;> simp [this, cand, hs, hj]
+
+theorem exit_eq (B : BNet) (bm : Beams) (w : Nat → Option Int) (e : Nat → Int)
+    (hk : ∀ x ∈ B.exits, ∀ y, w x.state = some y → keepExit B bm w e x = true) :
+    best (B.exits.map fun x => if keepExit B bm w e x then cand w e x.state (x.cx + x.hop) else none) =
+      best (B.toNet.exits.map fun (i, c) => (w i).map (· + e i + c)) := by
+  simp only [BNet.toNet, List.map_map]
+  congr 1
+  apply List.map_congr_left
+  intro x hx
+  simp only [Function.comp, BExit.pair]
+  cases hs : w x.state with
+  | none => simp [cand, hs]
+  | some y =>
+    have := hk x hx y hs
+    simp only [this, if_true, cand, hs]
 
 /-- under the regime the beam search's own vectors are the unpruned ones -/
 theorem bv_eq_vAt (B : BNet) (bm : Beams) (em : Nat → Nat → Int) (T : Nat) (hw : wfOuts B = true)
@@ -203,27 +244,15 @@ theorem bv_eq_vAt (B : BNet) (bm : Beams) (em : Nat → Nat → Int) (T : Nat) (
   | zero =>
     intro _
     funext j
-    simp only [bv, vAt, v0, BNet.toNet, List.map_map]
-    congr 1
-    apply List.map_congr_left
-    intro i hi
-    simp [hinit i hi, BInit.pair]
+    exact init_eq B bm hinit j
   | succ t ih =>
     intro ht
     funext j
     have iht := ih (by omega)
-    simp only [bv, vAt, stepV, BNet.toNet, List.map_map]
-    congr 1
-    apply List.map_congr_left
-    intro b hb
+    show best (B.edges.map fun b => if keepEdge B bm (bv B bm em t) (em t) b ∧ b.dst = j
+        then cand (bv B bm em t) (em t) b.src b.cost else none) = stepV B.toNet (em t) (vAt B.toNet em t) j
     rw [iht]
-    simp only [Function.comp, BEdge.triple]
-    cases hs : vAt B.toNet em t b.src with
-    | none => simp [cand, hs, BNet.toNet]
-    | some x =>
-      have hk := keepEdge_of_frameOK hw (hF t (by omega)) hb hs
-      simp only [BNet.toNet] at hs hk
-      simp [hk, cand, hs]
+    exact step_eq B bm _ (em t) (fun b hb x hs => keepEdge_of_frameOK hw (hF t (by omega)) hb hs) j
 
 /-- **beams wider than the spread prune nothing** (specification form) -/
 theorem beam_identity_spec (B : BNet) (bm : Beams) (em : Nat → Nat → Int) (T : Nat) (hT : 0 < T)
@@ -231,6 +260,11 @@ theorem beam_identity_spec (B : BNet) (bm : Beams) (em : Nat → Nat → Int) (T
     viterbiK B.toNet (beamMask B bm em T) em T = viterbi B.toNet em T ∧
     viterbiBeam B bm em T = viterbi B.toNet em T := by
   have hbv := bv_eq_vAt B bm em T hw hinit hF
+  have hlast : (T - 1 + 1 == T) = true := by
+    have : T - 1 + 1 = T := by omega
+    rw [this]; simp
+  have hfl := hF (T-1) (by omega)
+  rw [hlast] at hfl
   constructor
   · apply viterbiK_eq_of_keep
     · intro e he
@@ -253,28 +287,132 @@ theorem beam_identity_spec (B : BNet) (bm : Beams) (em : Nat → Nat → Int) (T
       simp only [beamMask, List.any_eq_true, Bool.and_eq_true, beq_iff_eq]
       refine ⟨x, hx, rfl, ?_⟩
       rw [hbv (T-1) (by omega)]
-      have hlast : (T - 1 + 1 == T) = true := by simp; omega
-      have hf := hF (T-1) (by omega)
-      rw [hlast] at hf
       cases hy : vAt B.toNet em (T-1) x.state with
       | none => exact absurd hy hs
-      | some y => exact keepExit_of_frameOK hw hf hx hy
+      | some y => exact keepExit_of_frameOK hw hfl hx hy
   · unfold viterbiBeam viterbi
     rw [hbv (T-1) (by omega)]
-    simp only [BNet.toNet, List.map_map]
-    congr 1
-    apply List.map_congr_left
-    intro x hx
-    simp only [Function.comp, BExit.pair]
-    cases hy : vAt B.toNet em (T-1) x.state with
-    | none => simp [cand, hy, BNet.toNet]
-    | some y =>
-      have hlast : (T - 1 + 1 == T) = true := by simp; omega
-      have hf := hF (T-1) (by omega)
-      rw [hlast] at hf
-      have hk := keepExit_of_frameOK hw hf hx hy
-      simp only [BNet.toNet] at hy hk
-      simp [hk, cand, hy]
+    exact exit_eq B bm _ (em (T-1)) (fun x hx y hy => keepExit_of_frameOK hw hfl hx hy)
+
+/-! ### the beam search is the masked DP (for any beams) -/
+
+theorem ole_antisymm {a b : Option Int} (h1 : ole a b) (h2 : ole b a) : a = b := by
+  cases a <;> cases b <;> simp_all [ole]; omega
+
+theorem best_le_of_sub {l1 l2 : List (Option Int)} (h : ∀ x ∈ l1, x = none ∨ x ∈ l2) : ole (best l1) (best l2) := by
+  rcases best_mem l1 with h1 | h1
+  · rw [h1]; trivial
+  · rcases h _ h1 with h2 | h2
+    · rw [h2]; trivial
+    · exact best_ge h2
+
+theorem best_eq_of_sub {l1 l2 : List (Option Int)} (h12 : ∀ x ∈ l1, x = none ∨ x ∈ l2)
+    (h21 : ∀ x ∈ l2, x = none ∨ x ∈ l1) : best l1 = best l2 :=
+  ole_antisymm (best_le_of_sub h12) (best_le_of_sub h21)
+
+theorem vAtK_beam_eq_bv (B : BNet) (bm : Beams) (em : Nat → Nat → Int) (T : Nat) :
+    ∀ t, vAtK B.toNet (beamMask B bm em T) em t = bv B bm em t := by
+  intro t
+  induction t with
+  | zero =>
+    funext j
+    simp only [vAtK, v0K, bv]
+    apply best_eq_of_sub
+    · intro x hx
+      simp only [BNet.toNet, List.map_map, List.mem_map, Function.comp] at hx
+      obtain ⟨i, hi, rfl⟩ := hx
+      by_cases hc : (beamMask B bm em T).init i.pair = true ∧ i.pair.1 = j
+      · right
+        obtain ⟨hm, hj⟩ := hc
+        have hm' := hm
+        simp only [beamMask, List.any_eq_true, Bool.and_eq_true, beq_iff_eq] at hm'
+        obtain ⟨i', hi', heq, hk⟩ := hm'
+        simp only [List.mem_map]
+        refine ⟨i', hi', ?_⟩
+        have h1 : i'.state = j := by rw [← hj, ← heq]; rfl
+        have h2 : i'.hop + i'.entry = i.pair.2 := by rw [← heq]; rfl
+        simp only [hk, h1, hm, hj, and_self, if_true, h2]
+      · left; simp only [hc, if_false]
+    · intro x hx
+      simp only [List.mem_map] at hx
+      obtain ⟨i, hi, rfl⟩ := hx
+      by_cases hc : keepInit bm i = true ∧ i.state = j
+      · right
+        obtain ⟨hk, rfl⟩ := hc
+        simp only [BNet.toNet, List.map_map, List.mem_map, Function.comp]
+        refine ⟨i, hi, ?_⟩
+        have hm : (beamMask B bm em T).init (i.state, i.hop + i.entry) = true := by
+          simp only [beamMask, List.any_eq_true, Bool.and_eq_true, beq_iff_eq]
+          exact ⟨i, hi, rfl, hk⟩
+        simp only [BInit.pair, hm, hk, and_self, if_true]
+      · left; simp only [hc, if_false]
+  | succ t ih =>
+    funext j
+    simp only [vAtK, stepVK, bv]
+    rw [ih]
+    apply best_eq_of_sub
+    · intro x hx
+      simp only [BNet.toNet, List.map_map, List.mem_map, Function.comp] at hx
+      obtain ⟨b, hb, rfl⟩ := hx
+      by_cases hc : (beamMask B bm em T).edge t b.triple = true ∧ b.triple.2.1 = j
+      · right
+        obtain ⟨hm, hj⟩ := hc
+        have hm' := hm
+        simp only [beamMask, List.any_eq_true, Bool.and_eq_true, beq_iff_eq] at hm'
+        obtain ⟨b', hb', heq, hk⟩ := hm'
+        simp only [List.mem_map]
+        refine ⟨b', hb', ?_⟩
+        have h1 : b'.dst = j := by rw [← hj, ← heq]; rfl
+        have h2 : b'.src = b.triple.1 := by rw [← heq]; rfl
+        have h3 : b'.cost = b.triple.2.2 := by rw [← heq]; rfl
+        simp only [hk, h1, hm, hj, and_self, if_true, cand, h2, h3]
+      · left; simp only [hc, if_false]
+    · intro x hx
+      simp only [List.mem_map] at hx
+      obtain ⟨b, hb, rfl⟩ := hx
+      by_cases hc : keepEdge B bm (bv B bm em t) (em t) b = true ∧ b.dst = j
+      · right
+        obtain ⟨hk, rfl⟩ := hc
+        simp only [BNet.toNet, List.map_map, List.mem_map, Function.comp]
+        refine ⟨b, hb, ?_⟩
+        have hm : (beamMask B bm em T).edge t (b.src, b.dst, b.cost) = true := by
+          simp only [beamMask, List.any_eq_true, Bool.and_eq_true, beq_iff_eq]
+          exact ⟨b, hb, rfl, hk⟩
+        simp only [BEdge.triple, hm, hk, and_self, if_true, cand]
+      · left; simp only [hc, if_false]
+
+/-- the value the beam search reports is the value of the masked DP, for any beams -/
+theorem viterbiBeam_eq_mask (B : BNet) (bm : Beams) (em : Nat → Nat → Int) (T : Nat) :
+    viterbiBeam B bm em T = viterbiK B.toNet (beamMask B bm em T) em T := by
+  unfold viterbiBeam viterbiK
+  rw [vAtK_beam_eq_bv]
+  apply best_eq_of_sub
+  · intro y hy
+    simp only [List.mem_map] at hy
+    obtain ⟨x, hx, rfl⟩ := hy
+    by_cases hc : keepExit B bm (bv B bm em (T-1)) (em (T-1)) x = true
+    · right
+      simp only [BNet.toNet, List.map_map, List.mem_map, Function.comp]
+      refine ⟨x, hx, ?_⟩
+      have hm : (beamMask B bm em T).exit (x.state, x.cx + x.hop) = true := by
+        simp only [beamMask, List.any_eq_true, Bool.and_eq_true, beq_iff_eq]
+        exact ⟨x, hx, rfl, hc⟩
+      simp only [BExit.pair, hm, hc, if_true, cand]
+    · left; simp only [hc]; rfl
+  · intro y hy
+    simp only [BNet.toNet, List.map_map, List.mem_map, Function.comp] at hy
+    obtain ⟨x, hx, rfl⟩ := hy
+    by_cases hc : (beamMask B bm em T).exit x.pair = true
+    · right
+      have hm := hc
+      simp only [beamMask, List.any_eq_true, Bool.and_eq_true, beq_iff_eq] at hm
+      obtain ⟨x', hx', heq, hk⟩ := hm
+      simp only [List.mem_map]
+      refine ⟨x', hx', ?_⟩
+      have h1 : x'.state = x.pair.1 := by rw [← heq]; rfl
+      have h2 : x'.cx + x'.hop = x.pair.2 := by rw [← heq]; rfl
+      simp only [hk, hc, if_true, cand, h1, h2]
+    · left; simp only [hc]; rfl
 
 /-- **beams wider than the spread prune nothing** (what the driver evaluates) -/
 theorem beam_identity (B : BNet) (bm : Beams) (n : Nat) (em : Nat → Nat → Int) (T : Nat) (hT : 0 < T)
